@@ -1,6 +1,7 @@
 """Runs scenarios against the real library (imported from /repo/src of the working tree) and
 renders what it observes in the canonical form the Lean driver prints."""
 import itertools
+import json
 
 from treepath import (find, find_matches, get, get_match, TreepathException)
 from codec import Builder, dec, enc, exc_chain, node_full
@@ -82,3 +83,138 @@ def observe_query(sc, traced=True):
     except Exception as e:  # noqa
         sig = ["X", exc_chain(e)]
     return [{"e": list(log), "s": sig}]
+
+
+# ---------------------------------------------------------------- mutate family
+
+class Numbering:
+    """canonical object numbers: first-visit order over the whole history"""
+
+    def __init__(self):
+        self.reg = {}
+        self.keep = []
+
+    def dump(self, v, seen=None):
+        """`seen`: objects already printed in this dump (printed once, then referenced)"""
+        if seen is None:
+            seen = set()
+        if isinstance(v, (dict, list)):
+            if id(v) not in self.reg:
+                self.reg[id(v)] = len(self.reg)
+                self.keep.append(v)
+            n = self.reg[id(v)]
+            if id(v) in seen:
+                return ["r", n]
+            seen.add(id(v))
+            if isinstance(v, dict):
+                return ["o", n, [[k, self.dump(x, seen)] for k, x in list(v.items())]]
+            return ["a", n, [self.dump(x, seen) for x in list(v)]]
+        return enc(v)
+
+
+def _lookup(doc, names):
+    cur = doc
+    for nm in names:
+        try:
+            if isinstance(cur, dict) and isinstance(nm, str):
+                cur = cur[nm]
+            elif isinstance(cur, list) and isinstance(nm, int) and not isinstance(nm, bool):
+                cur = cur[nm]
+            else:
+                return None
+        except (KeyError, IndexError):
+            return None
+    return cur
+
+
+def observe_mutate(sc):
+    from treepath import set_, set_match, pop, pop_match
+    doc = dec(sc["doc"])
+    num = Numbering()
+    handles = {}
+    out = [{"r": ["init"], "g": num.dump(doc)}]
+
+    def val(vs):
+        if vs[0] == "new":
+            return dec(vs[1])
+        return _lookup(doc, vs[1])
+
+    def fin(tag, pre, v, has_v=True):
+        seen = set()
+        g = num.dump(doc, seen)
+        r = [tag] + pre + ([num.dump(v, seen)] if has_v else [])
+        out.append({"r": r, "g": g})
+
+    def err(e):
+        g = num.dump(doc)
+        out.append({"r": ["err", exc_chain(e)], "g": g})
+
+    b = Builder([])
+    built = {}
+    _steps = b.steps
+
+    def cached_steps(steps, p=None, depth=0):
+        if p is not None or depth != 0:
+            return _steps(steps, p, depth)
+        key = json.dumps(steps)
+        if key not in built:
+            built[key] = _steps(steps)
+        return built[key]
+
+    b.steps = cached_steps
+    for op in sc["ops"]:
+        k = op[0]
+        try:
+            if k == "set":
+                r = set_(b.steps(op[1]), val(op[2]), doc, cascade=op[3])
+                fin("ok", [], r)
+            elif k == "set_match":
+                m = set_match(b.steps(op[1]), val(op[2]), doc, cascade=op[3])
+                fin("match", [m.path_as_str, m.data_name], m.data)
+            elif k == "pop":
+                if op[2][0] == "none":
+                    r = pop(b.steps(op[1]), doc)
+                else:
+                    r = pop(b.steps(op[1]), doc, default=val(op[2][1]))
+                fin("ok", [], r)
+            elif k == "pop_match":
+                m = pop_match(b.steps(op[1]), doc, must_match=op[2])
+                if m is None:
+                    fin("none", [], None, False)
+                else:
+                    fin("match", [m.path_as_str, m.data_name], m.data)
+            elif k == "get_sd":
+                r = get(b.steps(op[1]), doc, default=val(op[2]), store_default=True)
+                fin("ok", [], r)
+            elif k == "h.new":
+                ms = list(itertools.islice(find_matches(b.steps(op[2]), doc), op[3] + 1))
+                m = ms[op[3]] if len(ms) > op[3] else None
+                if m is not None and m.parent is not None:
+                    handles[op[1]] = m
+                    fin("h", [m.path_as_str], None, False)
+                else:
+                    handles.pop(op[1], None)
+                    fin("none", [], None, False)
+            elif k.startswith("h."):
+                m = handles.get(op[1])
+                if m is None:
+                    fin("nohandle", [], None, False)
+                elif k == "h.assign":
+                    m.data = val(op[2])
+                    fin("ok", [], None, False)
+                elif k == "h.del":
+                    del m.data
+                    fin("ok", [], None, False)
+                elif k == "h.pop":
+                    if op[2][0] == "none":
+                        r = m.pop()
+                    else:
+                        r = m.pop(val(op[2][1]))
+                    fin("ok", [], r)
+                elif k == "h.data":
+                    fin("ok", [], m.data)
+            else:
+                raise ValueError(f"bad op {op!r}")
+        except Exception as e:  # noqa
+            err(e)
+    return out
